@@ -196,7 +196,7 @@ def printable(b, n=400):
     return b[:n].decode("latin-1").encode("unicode_escape").decode("ascii")
 
 
-def run_chunked(binary, mode, inputs, extra, run_, flags=True, chunk=20000):
+def run_chunked(binary, mode, inputs, extra, run_, flags=True, chunk=20000, dec_quota=None, rng=None):
     """run the harness over the inputs in chunks; a dying harness (fatal error) is a failing input"""
     results = []
     for k in range(0, len(inputs), chunk):
@@ -218,6 +218,19 @@ def run_chunked(binary, mode, inputs, extra, run_, flags=True, chunk=20000):
             else:
                 run_.violation("C09 harness failed: " + err, {"correspondence": "C09 harness run", "error": err}, no_input=True)
             return None
+        if dec_quota is not None:
+            # keep the decoded structure of at most dec_quota distinct results of this chunk (model comparison sample)
+            idx = [i for i, r in enumerate(out["results"]) if r.get("dec") is not None]
+            rng.shuffle(idx)
+            seen, kept = set(), 0
+            for i in idx:
+                r = out["results"][i]
+                h = hashlib.sha1(json.dumps(r["dec"], sort_keys=True).encode()).digest() + r["class"].encode()
+                if kept < dec_quota and h not in seen and r["class"] in ("ok", "error"):
+                    seen.add(h)
+                    kept += 1
+                else:
+                    r["dec"] = None
         results += out["results"]
         if mode == "c09hidi":
             results_missing = out.get("missing")
@@ -284,7 +297,9 @@ def run(run_, only_input=None):
             inputs.append(("c: " + lab, txt))
     if only_input is not None and only_input[0] == "device":
         inputs = [("replay", only_input[1])]
-    results = run_chunked(binary, "c09", inputs, {"want_config": False, "want_dec": True, "dec_max_len": 6000}, run_) if inputs else []
+    nchunks = max(1, (len(inputs) + 19999) // 20000)
+    results = run_chunked(binary, "c09", inputs, {"want_config": False, "want_dec": True, "dec_max_len": 6000}, run_,
+                          dec_quota=n_model // nchunks + 1, rng=rng) if inputs else []
     if results is None:
         return
     by_stream = collections.defaultdict(collections.Counter)
